@@ -216,7 +216,7 @@ struct Shared {
     instances: HashMap<(usize, usize), usize>,
     finish: HashSet<String>,
     conn_wakers: HashMap<String, Waker>,
-    live: HashMap<String, (usize, usize)>, // peer -> (worker, token): service future alive
+    live: HashMap<String, (usize, usize, usize)>, // peer -> (worker, token, worker generation): service future alive
     done: Vec<String>,                     // peers whose service future completed
 }
 
@@ -318,7 +318,7 @@ impl<Io: PeerKey + 'static> Service<Io> for SimService<Io> {
             gen: self.gen,
             peer: peer.clone(),
         });
-        s.live.insert(peer.clone(), (self.worker, self.token));
+        s.live.insert(peer.clone(), (self.worker, self.token, self.gen));
         drop(s);
         ConnFut {
             io: Some(io),
@@ -511,6 +511,10 @@ struct Env {
     replaced: Vec<usize>,                   // fault reports already answered by a Replace
     skipped: Vec<String>,                   // environment actions that were not applicable
     dclean: Vec<bool>,               // per dispatch: no disturbance of the rotation right after it
+    dload: Vec<usize>,               // per dispatch: queued + in progress at the target right after the send
+    dafterfail: Vec<bool>,           // per dispatch: an earlier send of the same connection failed (a fault was found)
+    dmaxload: Vec<usize>,            // per dispatch: largest queued + in progress over all workers right after the send
+    faults_at_accept: usize,         // number of fault reports when the connection in hand was accepted
     in_hand: Option<usize>,
     points: Vec<(String, usize)>,
     anchored: Vec<(String, usize, Act, bool)>, // kind, nth (1-based, per iteration), action, fired
@@ -575,6 +579,9 @@ pub struct Snap {
     /// service-side: (cid, worker, token, instance, worker generation) in call order
     pub calls: Vec<(i64, usize, usize, usize, usize)>,
     pub dclean: Vec<bool>,
+    pub dload: Vec<usize>,
+    pub dafterfail: Vec<bool>,
+    pub dmaxload: Vec<usize>,
     pub inprog: Vec<Vec<usize>>,
     pub finished: Vec<usize>,
     pub uds_path: Vec<bool>,
@@ -640,7 +647,16 @@ impl Env {
             .as_ref()
             .map(|b| worker::verif::queue_len(&b.fut))
             .unwrap_or(0);
-        let live = self.sh.lock().unwrap().live.values().filter(|(w, _)| *w == i).count();
+        let live = self.sh.lock().unwrap().live.values().filter(|(w, _, _)| *w == i).count();
+        q + live
+    }
+
+    /// queued + in progress at the CURRENT generation of worker i (connections of a dead generation do not count)
+    fn load_gen(&self, i: usize) -> usize {
+        let Some(slot) = self.workers.get(i) else { return 0 };
+        let q = slot.built.as_ref().map(|b| worker::verif::queue_len(&b.fut)).unwrap_or(0);
+        let gen = slot.gen;
+        let live = self.sh.lock().unwrap().live.values().filter(|(w, _, g)| *w == i && *g == gen).count();
         q + live
     }
 
@@ -914,10 +930,16 @@ impl Env {
                     let gen = self.workers.get(arg).map(|w| w.gen).unwrap_or(0);
                     self.dispatched.push((cid, arg, gen));
                     self.dclean.push(true);
+                    self.collect_faults();
+                    self.dload.push(self.load_gen(arg));
+                    self.dafterfail.push(self.faults.len() > self.faults_at_accept);
+                    self.dmaxload.push((0..self.cfg.workers).map(|i| self.load_gen(i)).max().unwrap_or(0));
                 }
             }
             "accepted" => {
                 self.turns = 0;
+                self.collect_faults();
+                self.faults_at_accept = self.faults.len();
             }
             "inc" => {
                 // rotation disturbed right after this dispatch? (a handle marked unavailable, a worker at
@@ -1018,6 +1040,10 @@ impl Sim {
             replaced: vec![],
             skipped: vec![],
             dclean: vec![],
+            dload: vec![],
+            dafterfail: vec![],
+            dmaxload: vec![],
+            faults_at_accept: 0,
             in_hand: None,
             points: vec![],
             anchored: vec![],
@@ -1248,6 +1274,9 @@ impl Sim {
         s.accepted = e.accepted.clone();
         s.dispatched = e.dispatched.clone();
         s.dclean = e.dclean.clone();
+        s.dload = e.dload.clone();
+        s.dafterfail = e.dafterfail.clone();
+        s.dmaxload = e.dmaxload.clone();
         s.in_hand = e.in_hand.map(|c| c as i64).unwrap_or(-1);
         s.inprog = vec![vec![]; n];
         {
@@ -1264,7 +1293,7 @@ impl Sim {
                     s.calls.push((e.cid_of_peer(peer), *worker, *token, *inst, *gen));
                 }
             }
-            for (peer, (w, _)) in sh.live.iter() {
+            for (peer, (w, _, _)) in sh.live.iter() {
                 let cid = e.cid_of_peer(peer);
                 if cid >= 0 && *w < n {
                     s.inprog[*w].push(cid as usize);
